@@ -907,6 +907,10 @@ def slice_renderers(F, rep, rule="C15.1"):
                     want = False
                 else:
                     want = all(a.get("equal@%d" % p, True) for p in range(la))
+                    if val is True and any(("equal@%d" % p) not in a for p in range(la)):
+                        problems.append("eq returns true without comparing view position %d (the bases there can differ)" % (
+                            [p for p in range(la) if ("equal@%d" % p) not in a][0]))
+                        continue
                 if val != want:
                     problems.append("eq returns %s for lengths (%d,%d) and per-position equality %s" % (val, la, lb, {k: v for k, v in a.items()}))
                 for (x, y) in h.obs.get("base-compare", []):
